@@ -22,6 +22,7 @@ absent from the sheet.
 from __future__ import annotations
 
 import copy
+import random
 import re
 
 import numpy as np
@@ -413,7 +414,8 @@ COMP_POOL = ["sus", "inf", "rec", "vac", "lat", "act", "trt", "chr", "sev", "mld
 
 def gen_valid(r) -> dict:
     """A structured, valid framework spec.  Boundary features are weighted up: no population-type sheet, missing optional columns,
-    empty optional cells, fallback cascade, junction chains, residual links, duration groups, derivative and aggregated functions."""
+    empty optional cells, fallback cascade, junction chains, residual links, duration groups (the timed parameter sometimes a constant
+    function of a databook parameter), derivative and aggregated functions."""
     two = r.random() < 0.3
     if two:
         poptypes = [["pta", "Type A"], ["ptb", "Type B"]]
@@ -539,6 +541,15 @@ def gen_valid(r) -> dict:
             if not group:
                 spec["pars"].pop()
                 timed_par = None
+            else:
+                # sometimes the duration is a CONSTANT function of a databook parameter (`2*tbase`): accepted, and it must build and run.
+                # The decision comes from a side stream derived from the generator state, so that every other choice of the seed is unchanged.
+                st = r.getstate()[1]
+                r2 = random.Random(st[0] * 1000003 + st[624] * 31 + k)
+                if r2.random() < 0.45:
+                    tb = par("tbase" + sfx, "Base duration" + sfx.replace("_", " "), "duration", page="pp", default=r2.choice([None, 1.0]))
+                    tp = next(p for p in spec["pars"] if p["code"] == timed_par)
+                    tp.update(function=r2.choice(["2*%s", "%s + 0.5", "max(%s, 1)", "%s*1.5 + 0*%s"]).replace("%s", tb), page=None, default=None)
         if sink:
             mort = par("mort" + sfx, "Death rate" + sfx.replace("_", " "), r.choice(["rate", "probability"]), page="pp", default=r.choice([None, 0.01]), timescale=r.choice([None, 1]), max=r.choice([None, 5]), min=r.choice([None, 0]))
             for n in normal:
